@@ -370,6 +370,15 @@ impl Property for C20 {
                     "two entries map to {:?}",
                     e.to_filename()
                 );
+                // ... and two different file names must not come back as entries
+                // that the type itself considers equal (injectivity under its own ==)
+                ensure!(
+                    MetadataEntry::from_filename(FILE_NAMES[j]) != MetadataEntry::from_filename(FILE_NAMES[i]) && entry(j) != entry(i),
+                    "filename-table",
+                    "from_filename({:?}) and from_filename({:?}) compare equal",
+                    FILE_NAMES[j],
+                    FILE_NAMES[i]
+                );
             }
         }
         for p in &sc.probes {
